@@ -329,6 +329,11 @@ where
 
     async fn ready(&self, dependencies: &[ID]) -> Result<bool, Self::Error> {
         self.tx(async |tx| {
+            // Dependencies are treated as a set: the query below counts distinct rows, so we need
+            // to compare against the number of distinct dependencies as well.
+            let dependencies: HashSet<String> =
+                dependencies.iter().map(|dep| format!("'{dep}'")).collect();
+
             let sql = format!(
                 "
                 SELECT
@@ -339,8 +344,8 @@ where
                 ",
                 dependencies
                     .iter()
-                    .map(|dep| format!("'{dep}'"))
-                    .collect::<Vec<String>>()
+                    .map(String::as_str)
+                    .collect::<Vec<&str>>()
                     .join(",")
             );
 
